@@ -65,6 +65,9 @@ var c19Vals = []c19Val{
 	{"shrunkmapf", "func zmk() {m = {\"a\": 1, \"b\": 2, \"c\": 3, \"d\": 4, \"e\": 5, \"f\": 6}; del(m.f); del(m.e); del(m.d); m}; X = zmk()", `{"a": 9, "b": 2, "c": 3}`, ""},
 	{"shortslice", "func zsl() {a = [1, 2, 3, 4, 5, 6, 7, 8, 9, 10]; a[0:3]}; X = zsl()", "[9, 2, 3]", ""},
 	{"bigmixed", "[0.0, [1], {\"a\": 1}, 4, 5, 6, 7, 8, 9, 10, 11]", "[0.0, [1], {\"a\": 1}, 4, 5, 6, 7, 8, 9, 10, 12]", "[(-0.0), [1], {\"a\": 1}, 4, 5, 6, 7, 8, 9, 10, 11]"},
+	// a function literally named like the constant, held under another name, that assigns itself to that name
+	{"selfassign", "zf = func X() {X = self}; del(X); X = 3", "4", "3.0"},
+	{"selfassign2", "zg = func X(n) {if n > 0 {X = self}}; del(X); X = [1, 2]", "[1, 3]", "[1, 2.0]"},
 	// functions that differ only in where one statement ends and the next begins
 	{"fnsep-xor", "x => {y = x + 1; y; ^x}", "x => {y = x + 1; y ^ x}", ""},
 	{"fnsep-minus", "x => {y = 3; y; -x}", "x => {y = 3; y - x}", ""},
@@ -79,6 +82,8 @@ var c19Vals = []c19Val{
 var c19Attempts = []string{
 	"X = V", "X := V", "X = S", "X = X", "X = Q", "X := Q",
 	"X++", "X--", "++X", "--X",
+	"zf()", "zg(1)", "func zh() {zf()}; zh()",
+	"ys = X[0:9]; zs = ys + 99", "ys = X[0:2]; zs = ys + 99; ws = ys + [98]", "ys = X[1:]; zs = ys + 1 + 2", "ys = X + 1; zs = X + 2", "func gs() {ys = X[0:1]; ys + 5}; gs()", "ys = X[0:2]; ys[0] = 77",
 	"X[0] = 99", "X[-1] = 99", "X[0] = (-0.0)", "X[1] = [1.0]", "X[2] = {\"a\": 1.0}", "X[-1] = 11.0", "X.a = 1.0", "X[\"b\"] = 2.0", "func g10() {X[1] = [1.0]}; g10()", `X.a = 99`, `X["a"] = 99`, `X["newkey"] = 1`, `X.zz = 1`, `del(X["a"])`, `del(X.a)`, `del(X[0])`,
 	"for X = 3 {}", "for X = 1:3 {}", "for X = [V, V] {}", "for X = 3 {X}",
 	"func fp(X) {X}; fp(V)", "(X => X)(V)", "func fq(X) {X = V; X}; fq(S)", "func fr(a, X) {X}; fr(1, 7)",
